@@ -186,6 +186,16 @@ def rule_rel(rep, tname, abs_shape, o, m):
     wrote = sorted(set(rej.fields) | set(sh["pre_fields"]))
     rep.ob(R, key + "/reject-writes-nothing", not wrote, "fields written on the reject path: %s" % wrote, where)
     rep.ob(R, key + "/accept-ok", sh["accept_has_ok"], "accept path returns Ok", where)
+    # the rejection reports the ratio that was asked for (original * x, as the absolute setter would), the original ratio and the relative limit
+    err = sh["err"]
+    gotf = {f[0]: f[1] for f in err.get("fields", [])} if isinstance(err, dict) and err.get("k") == "struct" else {}
+    prov = gotf.get("provided")
+    prov = ir.resolve_let(sh["fn"], prov) if prov is not None and "fn" in sh else prov
+    prov_ok = prov is not None and nbit(prov) in (nbit(N("bin", op="*", l=self_field(o), r=ir.path(x))), nbit(N("bin", op="*", l=ir.path(x), r=self_field(o))))
+    rep.ob(R, key + "/reject-reports", prov_ok and gotf.get("original") is not None and nbit(gotf["original"]) == "self." + o
+           and gotf.get("max_relative_ratio") is not None and nbit(gotf["max_relative_ratio"]) == "self." + m and len(gotf) == 3,
+           "RatioOutOfBounds fields %s, expected provided = self.%s * %s, original = self.%s, max_relative_ratio = self.%s"
+           % ({k_: show(v_) for k_, v_ in gotf.items()}, o, x, o, m), where)
     # "then behaves as set_resample_ratio(original*x)": the accept stores are those of the absolute setter
     # with new_ratio := original * x (and no second range test on the way)
     second_test = [c for c in ir.mcalls(N("block", stmts=sh["if_node"]["then"]["stmts"]), "set_resample_ratio")]
